@@ -128,4 +128,15 @@ PROPS["C14"] = {
     "assumptions": ["a disconnect has been noticed by the proxy before the next event (the harness waits 15 ms)"],
 }
 
+PROPS["C07"] = {
+    "module": "CqlVerif.Props.C07",
+    "streams": [{"name": "ks", "quick": 800, "thorough": 30000}],
+    "shrink": False,
+    "claim": "Lean theorems forward_uses_current, use_failure_frame, use_success (reply names the keyspace as the backend would; only this client's state changes), getSession_spec (session_key_inv / pool_conn_keyspace) over Model/Keyspace for all interleaved histories; tied to proxy.go/session.go/connpool.go by the ks e2e stream: fakecass tags each connection with (keyspace, version, compression) and logs them per tokenised request",
+    "note": "trusted: Lean kernel, hand-written model + e2e correspondence (sequentialised histories); the fake backend implements CQL identifier rules (unquote / lower-case); simultaneous USE of one new keyspace by many clients is covered by the race run of C18, not here",
+    "rule": "ks: 1-3 clients with versions 3/4 and none/lz4/snappy, histories of USE (unquoted any case, quoted, with doubled quotes, non-existent) and data requests; compared per action: keyspace named in the reply / backend error, and for data requests the backend connection's (keyspace, version, compression); distinct = distinct histories",
+    "trusted_base": [KERNEL, DRIVER, HARNESS, "Model/Keyspace.lean hand-written"],
+    "assumptions": ["keyspace names are ASCII", "reconnected pool connections re-run USE (connPool.connect) - exercised only through session creation here"],
+}
+
 NOT_APPLICABLE = {}
